@@ -429,6 +429,19 @@ impl ExpandedField<'_> {
             None
         };
 
+        // `deserialize_with` disables serde's implicit `None` for a missing `Option` field.
+        let id_default = if is_id
+            && self
+                .field_type_qualifiers
+                .first()
+                .map(|qualifier| !qualifier.is_required())
+                .unwrap_or(true)
+        {
+            Some(quote!(#[serde(default)]))
+        } else {
+            None
+        };
+
         let optional_skip_serializing_none = if *options.skip_serializing_none()
             && self
                 .field_type_qualifiers
@@ -468,6 +481,7 @@ impl ExpandedField<'_> {
             #optional_rename
             #optional_deprecation_annotation
             #id_deserialize_with
+            #id_default
             pub #ident: #qualified_type
         };
 
